@@ -84,6 +84,33 @@ pub fn gen_nid(rng: &mut Rng, thorough: bool, out: &mut String) {
         .unwrap();
         writeln!(
             out,
+            "nid op=debug in={} out={}",
+            hx(&raw),
+            guard(|| format!("{id:#?}"))
+                .map(|s| hx(s.as_bytes()))
+                .unwrap_or("panic".into())
+        )
+        .unwrap();
+        writeln!(
+            out,
+            "nid op=debug in={} out={}",
+            hx(&raw),
+            guard(|| format!("{:?}", [id]))
+                .map(|s| hx(s[1..s.len() - 1].as_bytes()))
+                .unwrap_or("panic".into())
+        )
+        .unwrap();
+        writeln!(
+            out,
+            "nid op=display in={} out={}",
+            hx(&raw),
+            guard(|| format!("{id:>4}"))
+                .map(|s| hx(s.as_bytes()))
+                .unwrap_or("panic".into())
+        )
+        .unwrap();
+        writeln!(
+            out,
             "nid op=display in={} out={}",
             hx(&raw),
             guard(|| format!("{id}"))
@@ -221,6 +248,15 @@ pub fn gen_ck(rng: &mut Rng, thorough: bool, out: &mut String) {
         v[i] = rng.next() as u8;
         secp_inputs.push(v);
     }
+    // other lengths (k256 accepts 24..=32 bytes and left-pads; everything else is refused)
+    for len in [0usize, 1, 16, 23, 24, 25, 31, 33, 48, 64] {
+        let mut v = rng.bytes(len);
+        if len > 0 && len <= 32 {
+            v[0] &= 0x7f;
+        }
+        secp_inputs.push(v);
+        secp_inputs.push(vec![0u8; len]);
+    }
     for inp in secp_inputs {
         ck_line("secp", &inp, out);
     }
@@ -230,6 +266,16 @@ pub fn gen_ck(rng: &mut Rng, thorough: bool, out: &mut String) {
     }
     for len in [0usize, 1, 16, 31, 33, 48, 64, 65] {
         ed_inputs.push(rng.bytes(len));
+    }
+    // the 64-byte "keypair" encodings: secret || public (matching and not), secret || secret
+    for _ in 0..3 {
+        let sk = rng.bytes(32);
+        let a: [u8; 32] = sk.clone().try_into().unwrap();
+        let pk = enr::ed25519_dalek::SigningKey::from_bytes(&a).verifying_key().to_bytes().to_vec();
+        ed_inputs.push([sk.clone(), pk.clone()].concat());
+        ed_inputs.push([pk, sk.clone()].concat());
+        ed_inputs.push([sk.clone(), sk.clone()].concat());
+        ed_inputs.push([sk, vec![0u8; 32]].concat());
     }
     for inp in ed_inputs {
         ck_line("ed", &inp, out);
